@@ -50,15 +50,25 @@ func (w *ResponseWriter) WriteHeader(code int) {
 // Flush implements the standard http.Flusher interface.
 func (w *ResponseWriter) Flush() {
 	if flusher, ok := w.Origin.(http.Flusher); ok {
+		w.flushed()
 		flusher.Flush()
+	}
+}
+
+// flushed records the implicit 200 that flushing sends when no header has been written yet.
+func (w *ResponseWriter) flushed() {
+	if w.Status == 0 {
+		w.Status = http.StatusOK
 	}
 }
 
 // FlushError attempts to invoke FlushError() of the standard http.ResponseWriter.
 func (w *ResponseWriter) FlushError() error {
 	if flusher, ok := w.Origin.(interface{ FlushError() error }); ok {
+		w.flushed()
 		return flusher.FlushError()
 	} else if flusher, ok := w.Origin.(http.Flusher); ok {
+		w.flushed()
 		flusher.Flush()
 	}
 	return nil
